@@ -176,6 +176,17 @@ def main():
         ["(%s, %s, %s, %s)" % tuple(L.pstr(x) for x in d) for d in inst], "pstr * pstr * pstr * pstr")
     write("Registry.v", body)
 
+    # ---- what bandit-config-generator writes as plugin settings (parsed back)
+    try:
+        import yaml as _yaml
+        from bandit.cli import config_generator as _cg
+        gen_doc = _yaml.safe_load(_cg.get_config_settings()) or {}
+        body = "Definition generated_settings : list (pstr * jv) := %s.\n" % L.lst(
+            [L.pair(L.pstr(k), jv(v)) for k, v in gen_doc.items()], "pstr * jv")
+        write("ConfigGen.v", body)
+    except Exception as e:
+        write("ConfigGen.v", "(* translator failed: %s *)\nDefinition TRANSLATOR_FAILED : False := I.\n" % str(e).replace("*)", "* )"))
+
     # ---- Published rules (pinned in /verif/spec, not in /repo) and documentation URLs
     spec = json.load(open(os.path.join(os.path.dirname(os.path.abspath(__file__)), "..", "..", "spec", "published_rules.json")))
     body = "Definition published : list (pstr * pstr * rank) := %s.\n" % L.lst(
